@@ -129,11 +129,11 @@ def _compile_init(names: list[str], defaults: dict[str, Any]) -> types.CodeType:
     """
     Compile the init function.
 
-    For (["a", "b"], {"b": 3}) this takes the form of:
+    For (["a", "b"], {"b": 3}) this takes the form of (``defaults`` is bound to the given dict when the code is run):
 
      .. code-block :: Python
 
-        def __init__(self, a, b=3):
+        def __init__(self, a, b=defaults["b"]):
             self.a = a
             self.b = b
 
@@ -142,7 +142,7 @@ def _compile_init(names: list[str], defaults: dict[str, Any]) -> types.CodeType:
     :return: the compiled code object
     :rtype: code
     """
-    arg_list = ", ".join((f"{name}={defaults.get(name)!r}" if name in defaults else name) for name in names)
+    arg_list = ", ".join((f"{name}=defaults[{name!r}]" if name in defaults else name) for name in names)
     setters = "\n    ".join([f"self.{name} = {name}" for name in names])
     f_code = f"""
 def __init__(self, {arg_list}):
@@ -235,11 +235,13 @@ def vp_compile(vp_definition: type[T]) -> type[T]:
     local_scope = locals()
 
     # Load the function definitions into the local scope.
-    exec(_compile_init(vp_definition.names, {
+    # The default values themselves are bound (not their textual representation): any object can be a default.
+    defaults = {
         k: v.default
         for k, v in inspect.signature(vp_definition.__init__).parameters.items()
         if v.default is not inspect.Parameter.empty
-    }), globals(), local_scope)
+    }
+    exec(_compile_init(vp_definition.names, defaults), {**globals(), "defaults": defaults}, local_scope)
     exec(_compile_from_unpack_list(vp_definition, vp_definition.names), globals(), local_scope)
     exec(_compile_to_pack_list(vp_definition, vp_definition.format_list, vp_definition.names), globals(), local_scope)
 
